@@ -2205,6 +2205,7 @@ def FBG(
         method="RK45",
         args=(δ, s, k, F, apo_func),
         vectorized=True,
+        max_step=0.02,
     )
 
     y = sol.y[:, -1]
